@@ -30,6 +30,10 @@ fn main() {
         props::c06::worker_main(&args[2], &args[3]);
         return;
     }
+    if args[1] == "one" {
+        props::replay_one::run(&args[2]);
+        return;
+    }
     if args[1] == "debug-corpus" {
         debug_time_corpus();
         return;
